@@ -7,6 +7,7 @@
    kind "announce": Node.announce_blob on a warmed-up honest loss-free network of n nodes
         stored_to   number of node ids announce_blob returned          stored_seen  nodes on which the wire saw the store arrive
         want        min(K, n-1)                                        rank_max     worst closeness rank (1 = closest other node) of a storing node
+        converged   every node's routing table holds its K nearest other nodes
    kind "hit":  one value lookup (real IterativeValueFinder, consumed until it ends) from a node other than the announcer
         found       the announcer (node id, address, tcp port) was among the yielded peers
         age_hi      upper bound of (end of lookup - EARLIEST store time on any storing node), rounded up
@@ -29,21 +30,29 @@ TSpec == TInit /\ [][TNext]_tvars
 Is(k) == l = 1 /\ R.kind = k
 IsLookup == l = 1 /\ R.kind \in {"hit", "lookup"}
 
+\* a network of honest nodes must not spin: the driver's scheduler-step budget (25 steps per node and virtual second; an
+\* idle node needs about 5) was exhausted
+TNoLivelock == ~Is("livelock")
+
 \* ---- findable until expiry (honest, loss-free network)
 \* every copy younger than 24 h during the whole lookup => the announcer is returned
 THit == Is("hit") => ((R.age_hi < R.day) => (R.finished /\ R.found))
 \* every copy at least 24 h old when the lookup starts => the announcer is not returned
 TNoHitAfter == Is("hit") => ((R.age_lo >= R.day) => ~R.found)
-\* the announcement reached as many nodes as exist, up to K, and they are the closest ones to the hash
+\* the announcement reached as many nodes as exist, up to K; they are exactly the closest ones to the hash once every
+\* node knows its K nearest neighbours (the saturated tables of DhtStore.tla; a 40-node network needs more than the 4000 s
+\* warm-up for that, smaller ones are full meshes by then)
 TStoredSomewhere == Is("announce") => /\ R.stored_to = R.want /\ R.stored_seen = R.want
-                                      /\ R.rank_max <= R.want
+                                      /\ R.converged => R.rank_max <= R.want
 \* paging returns every announcer and nothing else
 TPagingComplete == Is("paging") => (R.finished /\ R.acked = R.n /\ R.returned = R.n /\ R.extra = 0)
 
 \* ---- termination and output validity (any network)
 \* the lookup ends; at least one probe is in flight until it does and a probe lasts at most rpc_timeout, so the
-\* elapsed virtual time is bounded by (number of probes) * rpc_timeout; a (peer, page) is asked at most once
-TTerminates == IsLookup => (R.finished /\ ~R.stopped_by_probe_budget /\ R.t1 - R.t0 <= R.nprobes * R.timeout)
+\* elapsed virtual time is bounded by (number of probes) * rpc_timeout -- for a node lookup (one page per peer) that is
+\* (number of contacted peers) * rpc_timeout; a (peer, page) is asked at most once
+TTerminates == IsLookup => /\ R.finished /\ ~R.stopped_by_probe_budget /\ R.t1 - R.t0 <= R.nprobes * R.timeout
+                           /\ (R.kind = "lookup" /\ R.mode = "node") => R.t1 - R.t0 <= R.contacted * R.timeout
 TProbeOnce == IsLookup => R.max_same_probe <= 1 /\ (R.mode = "node" => R.max_per_peer <= 1)
 Y == R.yielded
 TNodeResultsReplied == IsLookup => (R.mode = "node" => \A i \in DOMAIN Y : Y[i].replied)
